@@ -5,6 +5,7 @@ import (
 	"go/ast"
 	"go/token"
 	"go/types"
+	"regexp"
 	"sort"
 	"strings"
 
@@ -118,18 +119,21 @@ func ruleCommonTypeMap(c *core.Ctx) {
 		}
 		c.Check(okRank, rule, key, row.Pos(), "common type "+cm+" is at least as wide as both operands", fmt.Sprintf("common type %s of (%s, %s) is narrower than an operand: the documented promotion loses range", cm, a, b))
 	}
-	// both insertion orders
-	var rangeStmt *ast.RangeStmt
-	ast.Inspect(fn.Body, func(n ast.Node) bool {
-		if rs, ok := n.(*ast.RangeStmt); ok {
-			rangeStmt = rs
-		}
-		return true
-	})
+	// both insertion orders: inside a loop over the rows, the map is stored under {row.a, row.b} and under
+	// {row.b, row.a} (the key may go through an explaining local; the loop may be a range or an index loop)
 	fwd, rev := false, false
-	if rangeStmt != nil {
-		ast.Inspect(rangeStmt.Body, func(n ast.Node) bool {
-			as, ok := n.(*ast.AssignStmt)
+	ast.Inspect(fn.Body, func(n ast.Node) bool {
+		var body *ast.BlockStmt
+		switch l := n.(type) {
+		case *ast.RangeStmt:
+			body = l.Body
+		case *ast.ForStmt:
+			body = l.Body
+		default:
+			return true
+		}
+		ast.Inspect(body, func(m ast.Node) bool {
+			as, ok := m.(*ast.AssignStmt)
 			if !ok || len(as.Lhs) != 1 {
 				return true
 			}
@@ -137,20 +141,46 @@ func ruleCommonTypeMap(c *core.Ctx) {
 			if !ok {
 				return true
 			}
-			if kl, ok := ix.Index.(*ast.CompositeLit); ok && len(kl.Elts) == 2 {
-				s0, s1 := types.ExprString(kl.Elts[0]), types.ExprString(kl.Elts[1])
-				if strings.HasSuffix(s0, ".a") && strings.HasSuffix(s1, ".b") {
+			if _, isMap := info.TypeOf(ix.X).Underlying().(*types.Map); !isMap {
+				return true
+			}
+			key := ast.Unparen(core.InlineLocals(info, body, ix.Index))
+			for {
+				if pe, ok := key.(*ast.ParenExpr); ok {
+					key = pe.X
+					continue
+				}
+				break
+			}
+			if kl, ok := key.(*ast.CompositeLit); ok && len(kl.Elts) == 2 {
+				field := func(e ast.Expr) string {
+					if kv, ok := e.(*ast.KeyValueExpr); ok {
+						e = kv.Value
+					}
+					if se, ok := ast.Unparen(e).(*ast.SelectorExpr); ok {
+						return se.Sel.Name
+					}
+					return ""
+				}
+				f0, f1 := field(kl.Elts[0]), field(kl.Elts[1])
+				if f0 == "a" && f1 == "b" {
 					fwd = true
 				}
-				if strings.HasSuffix(s0, ".b") && strings.HasSuffix(s1, ".a") {
+				if f0 == "b" && f1 == "a" {
 					rev = true
 				}
 			}
 			return true
 		})
-	}
+		return true
+	})
 	c.Check(fwd && rev, rule, "commonTypeMap/both orders inserted", fn.Pos(), "m[{a,b}] and m[{b,a}] are both set for every row", "rows are not inserted under both operand orders: GetCommonType(a,b) and GetCommonType(b,a) differ")
 }
+
+var okAtomRe = regexp.MustCompile(`[^\s()!&|]+\([^()]*\)#ok`)
+var intAtomRe = regexp.MustCompile(`[^\s()!&|]+ == PrimitiveKindInteger`)
+var intNeAtomRe = regexp.MustCompile(`[^\s()!&|]+ != PrimitiveKindInteger`)
+var opEqRe = regexp.MustCompile(`^!?\(?(\S+\.Operator) == BinaryOp`)
 
 var exprEmitters = []struct{ name, pkg, fn string }{
 	{"cpp", "internal/cpp/types", "writeComputedFieldExpression"},
@@ -198,22 +228,24 @@ func ruleEmitterSiblings(c *core.Ctx) {
 		}
 		// binary operators: constants referenced in the emitter
 		used := map[string]bool{}
-		ast.Inspect(d.Body, func(n ast.Node) bool {
-			if sel, ok := n.(*ast.SelectorExpr); ok {
-				if k, ok := info.Uses[sel.Sel].(*types.Const); ok && strings.HasPrefix(k.Name(), "BinaryOp") {
-					used[k.Name()] = true
-				}
-			}
-			if sel, ok := n.(*ast.SelectorExpr); ok {
-				if k, ok := info.Uses[sel.Sel].(*types.Const); ok && strings.HasPrefix(k.Name(), "Function") {
-					if fnNames[em.name] == nil {
-						fnNames[em.name] = map[string]bool{}
+		for _, fd := range declsCalledInPkg(c, d, 2) { // the emitter and the helpers of its package it calls
+			ast.Inspect(fd.Body, func(n ast.Node) bool {
+				if sel, ok := n.(*ast.SelectorExpr); ok {
+					if k, ok := info.Uses[sel.Sel].(*types.Const); ok && strings.HasPrefix(k.Name(), "BinaryOp") {
+						used[k.Name()] = true
 					}
-					fnNames[em.name][k.Name()] = true
 				}
-			}
-			return true
-		})
+				if sel, ok := n.(*ast.SelectorExpr); ok {
+					if k, ok := info.Uses[sel.Sel].(*types.Const); ok && strings.HasPrefix(k.Name(), "Function") {
+						if fnNames[em.name] == nil {
+							fnNames[em.name] = map[string]bool{}
+						}
+						fnNames[em.name][k.Name()] = true
+					}
+				}
+				return true
+			})
+		}
 		for _, op := range binOps {
 			c.Check(used[op], rule, em.name+"/operator "+op, d.Pos(), "handled", "binary operator "+op+" is not handled by the "+em.name+" emitter")
 		}
@@ -351,14 +383,91 @@ func ruleOperatorTokens(c *core.Ctx) {
 	intDivToken := map[string]string{}
 	var intDivPos token.Pos
 	for _, em := range exprEmitters {
-		_, d, p := c.Func(em.pkg, em.fn)
+		_, d, _ := c.Func(em.pkg, em.fn)
 		if d == nil {
 			c.Undecided(rule, em.name+"/anchor", 0, "emitter not found")
 			continue
 		}
-		x := &gee.Extractor{Info: p.TypesInfo, Fset: c.Fset}
-		rows := x.Extract(em.fn, d)
+		rows, _ := flatRows(c, em.pkg, em.fn)
 		got := map[string]map[string]string{} // op -> guardclass -> token
+		// the token table is evaluated: for every operator, and for an integer / non-integer result type,
+		// the emissions whose guards hold under that assignment (tests on the operator written as a switch,
+		// an if-chain or inside a helper; the integer test in either polarity)
+		opSubj := ""
+		var opEmits []gee.Row
+		for _, r := range rows {
+			if r.Kind != "emit" || strings.Contains(r.Tmpl, "%") || len(strings.TrimSpace(r.Tmpl)) == 0 || len(r.Tmpl) > 12 {
+				continue
+			}
+			for _, g := range r.Guards {
+				if sj, elems, _, ok := parseSetGuard(stripDsl(g)); ok && len(elems) > 0 && strings.HasPrefix(elems[0], "BinaryOp") {
+					opSubj = sj
+				}
+			}
+			opEmits = append(opEmits, r)
+		}
+		normAtoms := func(gs []string) []string {
+			out := make([]string, len(gs))
+			for i, g := range gs {
+				g = stripDsl(g)
+				g = okAtomRe.ReplaceAllString(g, "isprim")
+				g = intAtomRe.ReplaceAllString(g, "isint")
+				g = intNeAtomRe.ReplaceAllString(g, "!isint")
+				// `X.Operator == BinaryOpK` spelled as a comparison
+				if m := opEqRe.FindStringSubmatch(g); m != nil && opSubj == "" {
+					opSubj = m[1]
+				}
+				out[i] = g
+			}
+			return out
+		}
+		var binOps []string
+		dsc := c.Pkg("pkg/dsl").Types.Scope()
+		for _, n := range dsc.Names() {
+			if k, ok := dsc.Lookup(n).(*types.Const); ok && strings.HasPrefix(k.Name(), "BinaryOp") {
+				binOps = append(binOps, k.Name())
+			}
+		}
+		for _, r := range opEmits {
+			normAtoms(r.Guards)
+		}
+		for _, op := range binOps {
+			for _, cls := range []string{"int", "other"} {
+				asg := map[string]string{opSubj: op, "isprim": "true", "isint": map[string]string{"int": "true", "other": "false"}[cls]}
+				for _, o2 := range binOps {
+					asg[opSubj+" == "+o2] = map[bool]string{true: "true", false: "false"}[o2 == op]
+				}
+				var toks []string
+				for _, r := range opEmits {
+					gs := normAtoms(r.Guards)
+					mentionsOp := false
+					for _, g := range gs {
+						// a positive test on the operator (a switch clause, `op == K`); the negated continuation
+						// guards after an early return do not select an operator
+						if strings.Contains(g, "BinaryOp") && !strings.HasPrefix(g, "!") {
+							mentionsOp = true
+						}
+					}
+					if !mentionsOp {
+						continue
+					}
+					if sat, _ := guardSat(gs, asg); sat {
+						toks = append(toks, r.Tmpl)
+					}
+				}
+				toks = uniq(toks)
+				if len(toks) == 0 {
+					continue
+				}
+				if got[op] == nil {
+					got[op] = map[string]string{}
+				}
+				got[op][cls] = toks[0] // the first token printed under the operator's own clause
+			}
+			if got[op] != nil && got[op]["int"] == got[op]["other"] {
+				got[op]["any"] = got[op]["int"]
+			}
+		}
 		recordIntDiv := func() {
 			if t, ok := got["BinaryOpDiv"]["int"]; ok {
 				intDivToken[em.name] = t
@@ -366,38 +475,6 @@ func ruleOperatorTokens(c *core.Ctx) {
 				intDivToken[em.name] = t
 			}
 			intDivPos = d.Pos()
-		}
-		for _, r := range rows {
-			if r.Kind != "emit" {
-				continue
-			}
-			op := ""
-			cls := "any"
-			for _, g := range r.Guards {
-				if strings.HasPrefix(g, "BinaryExpression.Operator∈{") && !strings.Contains(g, "|") {
-					op = strings.TrimSuffix(strings.TrimPrefix(g, "BinaryExpression.Operator∈{"), "}")
-				}
-				if strings.HasPrefix(g, "BinaryExpression.Operator == ") {
-					op = strings.TrimPrefix(g, "BinaryExpression.Operator == ")
-				}
-				if strings.Contains(g, "PrimitiveKindInteger") {
-					if strings.HasPrefix(g, "!(") {
-						cls = "other"
-					} else {
-						cls = "int"
-					}
-				}
-			}
-			if op == "" {
-				continue
-			}
-			op = opName(c, op)
-			if got[op] == nil {
-				got[op] = map[string]string{}
-			}
-			if _, dup := got[op][cls]; !dup {
-				got[op][cls] = r.Tmpl
-			}
 		}
 		recordIntDiv()
 		for op, want := range ref[em.name] {
@@ -550,7 +627,7 @@ func rulePromotionNotBypassed(c *core.Ctx) {
 			cond := enclosingIfCondIn(clause.Body, ret)
 			ct := ""
 			if cond != nil {
-				ct = types.ExprString(cond)
+				ct = core.ExprStringNoParens(core.InlineLocals(info, lit.Body, cond)) // explaining locals resolved
 			}
 			switch {
 			case strings.Contains(ct, "GetResolvedType() == nil"):
